@@ -43,7 +43,7 @@ def warm():
 
 def sizes(tier):
     if tier == "thorough":
-        return {"runs": 60000, "block": 100, "det": 64, "det_fresh": 8, "timeout": 3300}
+        return {"runs": 50000, "block": 100, "det": 64, "det_fresh": 8, "timeout": 6500}
     return {"runs": 1600, "block": 25, "det": 24, "det_fresh": 6, "timeout": 900}
 
 
@@ -56,7 +56,8 @@ def gen_profile(rng, big=False):
             "decades": rng.choice([0, 1, 3, 6]), "wind": rng.chance(0.6),
             # how the caller holds the profile: dtype and memory layout are the caller's business
             "h_int": rng.chance(0.1), "w_int": rng.chance(0.25), "strided": rng.chance(0.15), "readonly": rng.chance(0.15),
-            "dup": rng.weighted([(0, 4), (1, 1), (2, 1)])}          # layers listed at the same height (dome + surface layer)
+            "dup": rng.weighted([(0, 4), (1, 1), (2, 1)]),
+            "zeros": rng.weighted([(None, 5), ("top", 1.5), ("some", 1)])}      # layers of exactly zero strength (a zero-padded profile)          # layers listed at the same height (dome + surface layer)
 
 
 def gen_plan(rng, tier, index=0):
@@ -136,6 +137,12 @@ def build_profile(sp):
     if h[-1] <= h[0]:
         h[-1] = h[0] + 1.0          # a profile of zero thickness is degenerate (the slab width would be 0): not generated
     p = 10.0 ** rs.uniform(-sp["decades"] / 2.0, sp["decades"] / 2.0, N) * 1e-15
+    if sp.get("zeros") == "top" and N >= 3:
+        p[-max(1, N // 4):] = 0.0
+    elif sp.get("zeros") == "some" and N >= 3:
+        p[rs.random_sample(N) < 0.3] = 0.0
+        if not p.any():
+            p[0] = 1e-15
     w = rs.uniform(1.0, 40.0, N) if sp["wind"] else None
     if sp.get("w_int") and w is not None:
         w = numpy.round(w).astype("int64")          # whole metres per second
@@ -255,6 +262,10 @@ def check_og(res, si, h, p, L, out, hist_cls, stub):
     if L > 1 and not (numpy.diff(hL) > 0).all() and len(set(float(x) for x in h)) == len(h):
         res.violate("heights", "C18:optimal_grouping:heights-not-increasing", "returned heights %s repeat although the input heights are distinct" % hL, si)
         return
+    if not (p > 0).all():
+        res.count("oracle.og_calls_checked")
+        res.count("probe.og_profile_with_zero_strength_layers")
+        return          # cumulative sums have plateaus: the grouping cannot be reconstructed from the strengths
     # reconstruct the contiguous grouping from the strengths
     cp = numpy.concatenate([[0.0], numpy.cumsum(p)])
     cc = numpy.cumsum(cL)
